@@ -71,6 +71,54 @@ Record slock := mk { st : lstate; pol : policy; last_exp : N }.
 
 Definition new (p : policy) : slock := mk Init p 0.
 
+(* ------------------------------------------------------------------ policy selection
+   Credential::softlock_policy (server/lib/src/credential/mod.rs:782) as a function of the
+   credential's shape, i.e. the factors it offers. *)
+Definition TOTP_DEFAULT_STEP : N := 30.
+
+Inductive cshape :=
+| SPassword                                   (* CredentialType::Password *)
+| SGenerated                                  (* CredentialType::GeneratedPassword *)
+| SMfa (totp_steps : list N) (security_keys : N) (backup_codes : bool)
+                                              (* CredentialType::PasswordMfa(pw, totp, wan, backup) *)
+| SPasskey (passkeys : N).                    (* CredentialType::Webauthn *)
+
+(* `totp.iter().map(|(_, t)| t.step).min().unwrap_or(TOTP_DEFAULT_STEP)` *)
+Definition min_step (steps : list N) : N :=
+  match steps with [] => TOTP_DEFAULT_STEP | s :: r => fold_left N.min r s end.
+
+Definition softlock_policy (c : cshape) : policy :=
+  match c with
+  | SPassword | SGenerated => PPassword
+  | SMfa steps keys _ =>
+      if negb (match steps with [] => true | _ => false end) then PTotp (min_step steps)
+      else if negb (keys =? 0) then PWebauthn
+      else PPassword
+  | SPasskey _ => PWebauthn
+  end.
+
+(* spec, stated on the OBSERVED policy and without the selection order of the code: a
+   credential that offers a TOTP factor is limited per TOTP step, with the smallest step of
+   its TOTPs; a credential whose only factor is a password is limited per day; only
+   credentials without password-guessable or code-guessable factor (passkeys) or with a
+   security key and no TOTP get the 1 s webauthn policy. *)
+Definition policy_spec (c : cshape) (impl : policy) : bool :=
+  match c with
+  | SPassword | SGenerated => match impl with PPassword => true | _ => false end
+  | SMfa steps keys _ =>
+      match steps with
+      | _ :: _ =>
+          match impl with
+          | PTotp m => existsb (N.eqb m) steps && forallb (N.leb m) steps
+          | _ => false
+          end
+      | [] =>
+          if keys =? 0 then match impl with PPassword => true | _ => false end
+          else match impl with PWebauthn => true | _ => false end
+      end
+  | SPasskey _ => match impl with PWebauthn => true | _ => false end
+  end.
+
 (* CredSoftLock::apply_time_step (softlock.rs:189) *)
 Definition apply_time_step (s : slock) (ct : N) (expire_at : option N) : slock :=
   match st s with
@@ -338,13 +386,27 @@ Definition sobs_eqb (a b : lstate * N) : bool := lstate_eqb (fst a) (fst b) && (
 
 (* src: 0 = discipline run directly on the real CredSoftLock (hook); 1 = real server,
    auth Init/Begin/Cred; 2 = real server, auth_unix; 3 = real server, password+TOTP *)
+Definition policy_eqb (a b : policy) : bool :=
+  match a, b with
+  | PPassword, PPassword | PWebauthn, PWebauthn | PUnrestricted, PUnrestricted => true
+  | PTotp x, PTotp y => x =? y
+  | _, _ => false
+  end.
+
+(* CPolicy: the real softlock_policy() on a credential of the given shape.
+   CShapeEvents: a real IdmServer account whose primary credential has the given shape, driven
+   through the auth path; the lock must behave as the policy REQUIRED for that shape. *)
 Inductive case :=
+| CPolicy (c : cshape) (impl : policy)
+| CShapeEvents (src : N) (c : cshape) (evs : list ev) (impl : list obs)
 | CNext (p : policy) (count ct : N) (impl : lstate)
 | CRaw (p : policy) (s0 : lstate) (le0 : N) (ops : list op) (impl : list (lstate * N))
 | CEvents (src : N) (p : policy) (evs : list ev) (impl : list obs).
 
 Definition agree (c : case) : bool :=
   match c with
+  | CPolicy c impl => policy_eqb (softlock_policy c) impl
+  | CShapeEvents _ c evs impl => list_eqb obs_eqb (exec (new (softlock_policy c)) evs) impl
   | CNext p count ct impl => lstate_eqb (failure_next_state p count ct) impl
   | CRaw p s0 le0 ops impl =>
       list_eqb sobs_eqb (map slock_obs (run_ops (mk s0 p le0) ops)) impl
@@ -369,6 +431,16 @@ Fixpoint raw_ok (pre : lstate) (le : N) (ops : list op) (os : list (lstate * N))
 
 Definition pcheck (c : case) : bool :=
   match c with
+  | CPolicy c impl => policy_spec c impl
+  | CShapeEvents _ c evs impl =>
+      (* the rate bound of the factors the credential offers: evaluated with the policy the
+         spec requires for the shape (for a TOTP factor: PTotp of the smallest step) *)
+      let p := match c with
+               | SMfa (s :: r) _ _ => PTotp (fold_left N.min r s)
+               | SMfa [] 0 _ | SPassword | SGenerated => PPassword
+               | _ => PWebauthn
+               end in
+      locked_ok evs impl && rest_ok p evs impl
   | CNext p count ct impl => next_spec p count ct impl
   | CRaw p s0 le0 ops impl => raw_ok s0 le0 ops impl
   | CEvents _ p evs impl => locked_ok evs impl && rest_ok p evs impl
